@@ -18,18 +18,18 @@ pub fn key64(r: &mut Rng) -> Key64 { let mut k = [Key::from([0u8; 32]); 64]; for
 pub fn vi(r: &mut Rng) -> VarInt { VarInt(r.u64_boundary()) }
 
 #[derive(Clone, Debug)]
-pub struct Shape { pub version: u64, pub nin: usize, pub ring: usize, pub nout: usize, pub coinbase_first: bool, pub all_coinbase: bool, pub rct: RctType, pub nbp: usize, pub extra_len: usize }
+pub struct Shape { pub vary_rings: bool, pub version: u64, pub nin: usize, pub ring: usize, pub nout: usize, pub coinbase_first: bool, pub all_coinbase: bool, pub rct: RctType, pub nbp: usize, pub extra_len: usize }
 
 pub fn shape(r: &mut Rng) -> Shape {
     let version = if r.chance(1, 4) { 1 } else { 2 };
     let nin = if r.chance(1, 10) { 0 } else { r.range(1, 4) as usize };
-    Shape { version, nin, ring: r.range(1, 6) as usize, nout: r.below(5) as usize, coinbase_first: r.chance(1, 5), all_coinbase: r.chance(1, 12),
+    Shape { vary_rings: r.chance(1, 3), version, nin, ring: r.range(1, 6) as usize, nout: r.below(5) as usize, coinbase_first: r.chance(1, 5), all_coinbase: r.chance(1, 12),
         rct: *r.pick(&RCT_TYPES), nbp: r.below(3) as usize, extra_len: r.below(60) as usize }
 }
 
 pub fn tx_of(r: &mut Rng, s: &Shape) -> Transaction {
     let inputs: Vec<TxIn> = (0..s.nin).map(|i| if s.all_coinbase || (s.coinbase_first && i == 0) { TxIn::Gen { height: vi(r) } } else {
-        TxIn::ToKey { amount: vi(r), key_offsets: (0..s.ring).map(|_| vi(r)).collect(), k_image: KeyImage { image: Hash(r.arr32()) } } }).collect();
+        TxIn::ToKey { amount: vi(r), key_offsets: { let m = if s.vary_rings && i > 0 { r.range(1, s.ring as u64 + 3) as usize } else { s.ring }; (0..m).map(|_| vi(r)).collect() }, k_image: KeyImage { image: Hash(r.arr32()) } } }).collect();
     let outputs: Vec<TxOut> = (0..s.nout).map(|_| TxOut { amount: vi(r), target: if r.chance(1, 2) { TxOutTarget::ToKey { key: r.arr32() } } else { TxOutTarget::ToTaggedKey { key: r.arr32(), view_tag: r.byte() } } }).collect();
     let extra = RawExtraField(r.bytes(s.extra_len));
     let prefix = TransactionPrefix { version: VarInt(s.version), unlock_time: vi(r), inputs, outputs, extra };
@@ -63,7 +63,7 @@ pub fn tx_of(r: &mut Rng, s: &Shape) -> Transaction {
 pub fn tx(r: &mut Rng) -> Transaction { let s = shape(r); tx_of(r, &s) }
 
 pub fn miner_tx(r: &mut Rng) -> Transaction {
-    let s = Shape { version: 2, nin: 1, ring: 1, nout: r.range(1, 3) as usize, coinbase_first: true, all_coinbase: true, rct: RctType::Null, nbp: 0, extra_len: r.range(33, 50) as usize };
+    let s = Shape { vary_rings: false, version: 2, nin: 1, ring: 1, nout: r.range(1, 3) as usize, coinbase_first: true, all_coinbase: true, rct: RctType::Null, nbp: 0, extra_len: r.range(33, 50) as usize };
     tx_of(r, &s)
 }
 pub fn header(r: &mut Rng) -> BlockHeader { BlockHeader { major_version: vi(r), minor_version: vi(r), timestamp: vi(r), prev_id: Hash(r.arr32()), nonce: r.next() as u32 } }
